@@ -409,9 +409,11 @@ pub fn name_alphabet() -> Vec<&'static str> {
         "nnnnnnnnnnnnnnnnnnnnnnnnnnnnnnnnnnnnnnnnnnnnnnnnnnnnnnnnnnnnnnnnnnnnnnnnnnnnnnnnnnnnnnnnnnnnnnnnnnnnnnnnnnnnnnnnnnnnnnnnnnnnnnnnnnnnnnnnnnnnnnnnnnnnnnnnnnnnnnnnnnnnnnnnnnnnnnnnnnnnnnnnnnnnnnnnnnnnnnnnnnnnnnnnnnnnnnnnnnnnnnnnnnnnnnnnnnnnnnnnnnnnnnnnnnnnnnnnnnnnnnnnnnnnnnnnnnnnnnnnnnnnnnnnnnnnnnnnnnnnnnnnnnnnnnnn",
         // names that some API might treat as magic
         "*", "**", "?", "@", "#", "%", "+", "-", "_", "__proto__", "true", "false", "null", "0", "1", "[]", "{}", "all", "a ", " a", "a\u{a0}", "A",
+        // names that begin with an always-visible claim's name, and names whose serialized form ends like a reserved key
+        "issuer", "iat_", "expiry", "is", "x\"_sd", "x\"...", "\"_sd", "_sd\"", "_sd\":", "_sd_alg_", "cnf_",
     ]
 }
 /// Member names usable under Custom (free of '.' and '[' and non-empty).
 pub fn custom_name_alphabet() -> Vec<&'static str> {
-    vec!["a", "ab", "\u{e9}", "x y", "\u{1F600}", "x\"y", "$", "0", "]", "*", "?", "@", "true", "null", "a ", " a", "a\u{a0}", "a\t", "A", "-", "_"]
+    vec!["a", "ab", "\u{e9}", "x y", "\u{1F600}", "x\"y", "$", "0", "]", "*", "?", "@", "true", "null", "a ", " a", "a\u{a0}", "a\t", "A", "-", "_", "issuer", "iat_", "expiry", "x\"_sd", "_sd\":", ""]
 }
